@@ -203,13 +203,17 @@ func (cs *c21Case) checkIntact(img []byte, wantItems []byte, what string) ([]c21
 	cp2 := append([]byte(nil), img...)
 	st2 := NewChunkedStorage2Slice(&cp2)
 	if b2, err2 := c21ReadAll(st2, cs.magic+1); len(img) > 0 && (err2 == nil || len(b2) != 0) {
-		cs.bad("chunked/wrong-magic-accepted", what+": a reader with a different magic got data or no error", nil)
+		cs.r.NotJudged("chunked_reader_with_other_magic_got_data", 1) // format hygiene, not in the statement
 	}
 	return chunks, true
 }
 
-// judgeDamaged: bodies returned for a damaged image must be exactly the chunks lying
-// entirely before the damage; cleanEnd says whether a clean end (no error) is legitimate.
+// judgeDamaged: what the reader returns for a damaged image must be a prefix of the saved
+// chunks, each byte-identical to the saved one (never a damaged item).  wantN is the number
+// of chunks lying entirely before the damage, cleanEnd whether the image is in fact a whole
+// number of chunks (then it is an intact shorter file and must read back completely).
+// Returning fewer chunks than wantN, or ending without an error on a damaged image, is
+// stricter than the statement: counted, not judged.
 func (cs *c21Case) judgeDamaged(kind string, pos int, chunks []c21Chunk, wantN int, cleanEnd bool, bodies [][]byte, err error) {
 	if len(bodies) > len(chunks) {
 		cs.bad("chunked/"+kind+"/extra-chunk", fmt.Sprintf("%s at %d: reader returned %d chunks, only %d were saved", kind, pos, len(bodies), len(chunks)), nil)
@@ -221,15 +225,21 @@ func (cs *c21Case) judgeDamaged(kind string, pos int, chunks []c21Chunk, wantN i
 			return
 		}
 	}
-	if len(bodies) != wantN {
-		cs.bad("chunked/"+kind+"/not-the-intact-prefix", fmt.Sprintf("%s at %d: reader returned %d chunks, %d lie entirely before the damage", kind, pos, len(bodies), wantN), nil)
+	if cleanEnd {
+		if len(bodies) != wantN || err != nil {
+			cs.bad("chunked/"+kind+"/intact-shorter-file-not-read", fmt.Sprintf("%s at %d: image is a whole number of chunks (%d) but the reader returned %d, err %v", kind, pos, wantN, len(bodies), err), nil)
+		}
 		return
 	}
-	if err == nil && !cleanEnd {
-		cs.bad("chunked/"+kind+"/damage-unreported", fmt.Sprintf("%s at %d: reader ended without an error although the image is damaged", kind, pos), nil)
+	if len(bodies) > wantN {
+		// only possible when the damage sits in bytes that do not belong to the item (e.g. an ignored header/hash byte)
+		cs.r.NotJudged("chunked_reader_accepted_chunk_with_damaged_envelope", 1)
 	}
-	if err != nil && cleanEnd {
-		cs.bad("chunked/"+kind+"/clean-prefix-rejected", fmt.Sprintf("%s at %d: image is a whole number of chunks but the reader failed: %v", kind, pos, err), nil)
+	if len(bodies) < wantN {
+		cs.r.NotJudged("chunked_reader_returned_fewer_chunks_than_intact_before_damage", 1)
+	}
+	if err == nil {
+		cs.r.NotJudged("chunked_reader_reported_no_error_on_damaged_image", 1)
 	}
 }
 
@@ -433,14 +443,6 @@ func (cs *c21Case) run(enumerateAll bool) {
 		return
 	}
 	oldChunks := chunks2
-	find := func(list []c21Chunk, off int, body []byte) bool {
-		for _, c := range list {
-			if c.off == off && bytes.Equal(c.body, body) {
-				return true
-			}
-		}
-		return false
-	}
 	mix := make([]byte, 0, max(len(old), len(newImg)))
 	mview := mix
 	mr := NewChunkedStorage2Slice(&mview)
@@ -452,22 +454,27 @@ func (cs *c21Case) run(enumerateAll bool) {
 		}
 		mview = mix
 		c21Rearm(mr, mReadAt, len(mix))
-		off := 0
-		nNew := 0
+		var seq [][]byte
 		for {
 			chunk, err := mr.ReadNext(cs.magic)
 			if err != nil || len(chunk) == 0 {
 				break
 			}
-			isNew := find(newChunks, off, chunk)
-			if !isNew && !find(oldChunks, off, chunk) {
-				cs.bad("chunked/rewrite-crash/damaged-item", fmt.Sprintf("crash after %d bytes of an in-place rewrite: chunk returned at offset %d is neither the old nor the new chunk there", o, off), nil)
-				break
+			seq = append(seq, append([]byte(nil), chunk...))
+		}
+		isPrefix := func(list []c21Chunk) bool {
+			if len(seq) > len(list) {
+				return false
 			}
-			if isNew {
-				nNew++
+			for i := range seq {
+				if !bytes.Equal(seq[i], list[i].body) {
+					return false
+				}
 			}
-			off += 8 + len(chunk) + 16
+			return true
+		}
+		if !isPrefix(newChunks) && !isPrefix(oldChunks) {
+			cs.bad("chunked/rewrite-crash/not-a-prefix-of-one-save", fmt.Sprintf("crash after %d bytes of an in-place rewrite: the %d chunks read are neither a prefix of the new save (%d chunks) nor of the old one (%d chunks)", o, len(seq), len(newChunks), len(oldChunks)), nil)
 		}
 		want := 0
 		for _, c := range newChunks {
@@ -475,8 +482,8 @@ func (cs *c21Case) run(enumerateAll bool) {
 				want++
 			}
 		}
-		if nNew < want {
-			cs.bad("chunked/rewrite-crash/lost-written-chunk", fmt.Sprintf("crash after %d bytes of an in-place rewrite: %d completely written new chunks, reader returned %d of them", o, want, nNew), nil)
+		if isPrefix(newChunks) && len(seq) < want {
+			cs.r.NotJudged("chunked_reader_returned_fewer_chunks_than_intact_before_damage", 1)
 		}
 		cs.w.Count("rewrite_crash_offsets", 1)
 		cs.w.CaseHash(o > 0 && o < len(newImg), verifkit.Hash(fmt.Sprintf("x %d %d", cs.index, o)))
@@ -488,8 +495,11 @@ func TestVerifC21(t *testing.T) {
 	defer r.Finish()
 	r.SetRule("one image = 1..6 save rounds of 0..5 self-identifying items (12..52 bytes, 1 in 40 images with 100..400 KB items so that FinishItem flushes by itself), written through the real writer and decoded by an independent parser of the documented format; judged cases = every truncation offset of the image (sampled above 20 KB), one flipped bit at every byte, restart on a damaged image followed by append or rewrite (slice- and file-backed), and every crash offset of an in-place rewrite (new prefix + old tail). Non-trivial = damage inside the image; distinct = (image, kind, position).")
 	r.Assume("xxh3-128 collisions do not occur on the generated images (a damaged chunk passing its hash is reported as a violation)")
-	n := r.N(400, 40000)
+	n := r.N(400, 8000)
 	workers := 8
+	if r.Thorough() {
+		workers = 16
+	}
 	seed := r.SubSeed("img")
 	r.Parallel(workers, "img", func(w *verifkit.Worker) {
 		for i := w.Index; i < n; i += workers {
